@@ -97,6 +97,27 @@ def register(reg):
                       f'{expr}, (0, len(result)))')],
             mutants=[mut],
         ))
+    # segment_area: row k counts the pixels of *its* label inside *its* slices
+    reg.record('SourceCatalog@area', {'labels': ('seq', 'int'), '_slices_iter': ('seq', 'slice2'),
+                                      '_segment_img': ('arr', 2, 'int')})
+    sa = 'self._slices_iter[k]'
+    reg.add(Contract(
+        target=f'{S}.segment_area', props=['C07', 'C08'], kind='property', block=('areas', 'areas'),
+        params={'self': 'SourceCatalog@area'},
+        requires=['len(self.labels) == len(self._slices_iter)',
+                  f'forall(lambda k: 0 <= {sa}[0].start and {sa}[0].start < {sa}[0].stop and '
+                  f'{sa}[0].stop <= self._segment_img.shape[0] and 0 <= {sa}[1].start and '
+                  f'{sa}[1].start < {sa}[1].stop and {sa}[1].stop <= self._segment_img.shape[1], '
+                  '(0, len(self._slices_iter)))'],
+        ensures=[('one-per-row', 'len(areas) == len(self.labels)'),
+                 ('counts-the-pixels-of-the-rows-own-label-in-its-own-slices',
+                  f'forall(lambda k: areas[k] == np.count_nonzero(self._segment_img[{sa}] == '
+                  'self.labels[k]), (0, len(areas)))')],
+        mutants=[('self._segment_img[slices] == label', 'self._segment_img[slices] != 0'),
+                 ('self._segment_img[slices] == label', 'self._segment_img[slices] >= label'),
+                 ('zip(self.labels, self._slices_iter, strict=True)',
+                  'zip(self.labels, self._slices_iter[::-1], strict=True)')],
+    ))
     reg.add(Contract(
         target=f'{S}._all_masked', props=['C07'], kind='property',
         params={'self': 'SourceCatalog'},
